@@ -31,6 +31,10 @@
 
 using namespace Parma_Polyhedra_Library;
 
+// The in-process leak checks are the monitor; the end-of-process check would only re-report
+// what was already turned into violations (and make the worker look crashed).
+extern "C" const char* __lsan_default_options() { return "leak_check_at_exit=0:print_suppressions=0"; }
+
 // ===================================================================================
 // 1. Allocation interposer
 // ===================================================================================
@@ -40,22 +44,25 @@ bool g_fired = false;
 unsigned long g_allocs = 0;
 void* g_fire_pcs[8]; int g_fire_npcs = 0;
 
-// live blocks allocated since track_reset() (open addressing, tombstones; no allocation)
+// live blocks allocated since track_reset() (open addressing, tombstones; no allocation).
+// Addresses are stored complemented: the table lives in global memory, which LeakSanitizer scans
+// for roots - a plain copy of the address would make every leaked block "reachable".
 const size_t TBITS = 18, TSIZE = size_t(1) << TBITS;
 void* g_tab[TSIZE];
+inline void* hide(void* p) { return (void*) ~(uintptr_t) p; }
 size_t g_tab_used = 0; bool g_track = false, g_tab_overflow = false;
 void* const TOMB = (void*) 1;
 inline size_t th(void* p) { return (size_t) (((uintptr_t) p >> 4) * 0x9E3779B97F4A7C15ULL >> (64 - TBITS)); }
 inline void t_insert(void* p) {
   if (g_tab_used * 2 > TSIZE) { g_tab_overflow = true; return; }
-  size_t i = th(p);
+  size_t i = th(p); p = hide(p);
   while (g_tab[i] && g_tab[i] != TOMB) i = (i + 1) & (TSIZE - 1);
   if (!g_tab[i]) ++g_tab_used;
   g_tab[i] = p;
 }
 inline void t_erase(void* p) {
   if (!g_tab_used || !p) return;
-  size_t i = th(p);
+  size_t i = th(p); p = hide(p);
   while (g_tab[i]) { if (g_tab[i] == p) { g_tab[i] = TOMB; return; } i = (i + 1) & (TSIZE - 1); }
 }
 void track_reset() { memset(g_tab, 0, sizeof g_tab); g_tab_used = 0; g_tab_overflow = false; }
@@ -218,18 +225,30 @@ std::string slurp_new(const std::string& path, long* off) {
   return s;
 }
 std::string slurp_and_truncate(const std::string& path) { return slurp_new(path, path == report_file() ? &g_rep_off : 0); }
-// "Parma_Polyhedra_Library::CO_Tree::CO_Tree<...>(args)" -> "CO_Tree::CO_Tree<...>"
+// "ns::Enable_If<..>::type ns::CO_Tree::CO_Tree<...>(args) const" -> "CO_Tree::CO_Tree<...>"
 std::string tidy_fn(std::string f) {
   const std::string ns = "Parma_Polyhedra_Library::";
   for (size_t p; (p = f.find(ns)) != std::string::npos; ) f.erase(p, ns.size());
-  int depth = 0; size_t cut = std::string::npos;
-  for (size_t i = 0; i < f.size(); ++i) {
-    if (f[i] == '<') ++depth; else if (f[i] == '>') --depth;
-    else if (f[i] == '(' && depth == 0 && f.compare(0, 9, "operator(") != 0) { cut = i; break; }
+  // operators: keep "…::operator<sym>"
+  size_t op = f.find("operator");
+  if (op != std::string::npos && (op == 0 || f[op - 1] == ':' || f[op - 1] == ' ')) {
+    size_t e = op + 8; if (f.compare(e, 2, "()") == 0) e += 2; else while (e < f.size() && f[e] != '(') ++e;
+    size_t b = f.rfind(' ', op); b = b == std::string::npos ? 0 : b + 1;
+    std::string o = f.substr(b, e - b), r; for (size_t i = 0; i < o.size(); ++i) if (o[i] != ' ') r += o[i];
+    return r;
   }
-  if (cut != std::string::npos) f.erase(cut);
+  // the name is the last blank-separated token (at nesting depth 0) before the parameter list
+  int depth = 0; size_t start = 0, cut = std::string::npos;
+  for (size_t i = 0; i < f.size(); ++i) {
+    char ch = f[i];
+    if (ch == '<' || ch == '[') ++depth; else if (ch == '>' || ch == ']') --depth;
+    else if (ch == '(' && depth == 0) { cut = i; break; }
+    else if (ch == '(') ++depth; else if (ch == ')') --depth;
+    else if (ch == ' ' && depth == 0) start = i + 1;
+  }
+  f = f.substr(start, cut == std::string::npos ? std::string::npos : cut - start);
   std::string o; for (size_t i = 0; i < f.size(); ++i) if (f[i] != ' ') o += f[i];
-  return o;
+  return o.size() > 90 ? o.substr(0, 90) : o;
 }
 // frames ("function file:line") of the first stack in a sanitizer report
 struct Frame { std::string fn, loc; bool ppl; };
@@ -291,7 +310,7 @@ bool leak_check(std::string& site, std::string& detail) {
   // hand every block allocated during this invocation and still live to LSan's ignore list:
   // reachable ones (library caches) are unaffected, the leaked ones stop being re-reported.
   size_t ign = 0;
-  for (size_t i = 0; i < TSIZE; ++i) if (g_tab[i] && g_tab[i] != TOMB) { __lsan_ignore_object(g_tab[i]); ++ign; }
+  for (size_t i = 0; i < TSIZE; ++i) if (g_tab[i] && g_tab[i] != TOMB) { __lsan_ignore_object(hide(g_tab[i])); ++ign; }
   scrub_stack();
   if (hx::opt().verbose) fprintf(stderr, "ignored %zu live blocks (table used %zu, overflow %d)\n", ign, g_tab_used, (int) g_tab_overflow);
   if (g_tab_overflow || __lsan_do_recoverable_leak_check()) { std::string rep2 = slurp_and_truncate(report_file()); if (hx::opt().verbose) fprintf(stderr, "SECOND: %s\n", rep2.c_str()); detail += " [could not isolate the leaked blocks: the case stops here]"; site += ""; hx::count("leak.not_isolated"); return true; }
@@ -502,9 +521,12 @@ void case_body() {
   }
   if (kind == "reject") { if (g_rej.empty()) return; reject_case(); return; }
   if (g_scen.empty()) return;
-  // round robin over the scenario table so that every kind is exercised; abandon/weight
-  // cases draw from the scenarios that have checkpoints (learnt at run time; fallback alloc)
-  const fi::Scen& sc = *g_scen[(size_t) ((hx::st().cur_case + (long) (hx::opt().seed * 7)) % (long) g_scen.size())];
+  // Walk the (alphabetically sorted) scenario table with a stride coprime to its size: any run of
+  // consecutive case indices spreads over all domains, and `size` consecutive cases visit every scenario once.
+  const unsigned long nsc = g_scen.size();
+  static unsigned long stride = 0;
+  if (!stride) { stride = (nsc * 618UL / 1000UL) | 1UL; while (std::__gcd(stride, nsc) != 1) stride += 2; }
+  const fi::Scen& sc = *g_scen[(size_t) ((((unsigned long) hx::st().cur_case % nsc) * stride + (unsigned long) (hx::opt().seed % 1000003) * 7919UL) % nsc)];
   alloc_like_case(sc, kind == "alloc" ? fi::ALLOC : kind == "abandon" ? fi::ABANDON : fi::WEIGHT);
 }
 
@@ -545,7 +567,10 @@ void lsan_selftest_or_die() {
   if (pid == 0) {
     __sanitizer_set_report_path("/dev/null");
     static volatile uintptr_t hidden;
-    { void* p = malloc(123); hidden = ~(uintptr_t) p; }
+    // through the interposed allocator with tracking on: the table of live blocks must not make it reachable
+    track_reset(); g_track = true;
+    { void* p = operator new(123); hidden = ~(uintptr_t) p; }
+    g_track = false;
     scrub_stack();
     int r = __lsan_do_recoverable_leak_check();
     _exit(r ? 0 : 9);
@@ -564,7 +589,7 @@ std::string crash_class(const std::string& rep, std::string& detail) {
   std::string kind = "died";
   size_t p = rep.find("ERROR: AddressSanitizer: ");
   if (p != std::string::npos) { size_t q = rep.find_first_of(" \n", p + 25); kind = rep.substr(p + 25, q - (p + 25)); }
-  else if ((p = rep.find("runtime error: ")) != std::string::npos) { kind = "ubsan"; }
+  else if ((p = rep.find("runtime error: ")) != std::string::npos) { kind = "ubsan"; size_t q = rep.find('\n', p); std::string m = rep.substr(p + 15, q - (p + 15)); std::string t; for (size_t i = 0; i < m.size() && t.size() < 40; ++i) { char ch = m[i]; if (isdigit((unsigned char) ch)) { if (t.empty() || t[t.size() - 1] != 'N') t += 'N'; } else t += (ch == ' ' ? '-' : ch); } kind += "(" + t + ")"; }
   else if (rep.find("terminate called") != std::string::npos) kind = "terminate";
   std::vector<Frame> fr = first_stack(rep);
   std::string ctx; std::string top = top_ppl_frame(fr, &ctx);
@@ -606,12 +631,18 @@ void run_case(uint64_t) {
     close(pfd[0]);
     g_in_child = true;
     __sanitizer_set_report_path((g_base + ".rep").c_str());     // -> <base>.rep.<pid>
+    if (!hx::opt().verbose) {   // UBSan diagnostics and std::terminate messages go to stderr: keep them for the parent
+      char eb[32]; snprintf(eb, sizeof eb, ".%d", (int) getpid());
+      int efd = open((g_base + ".err" + eb).c_str(), O_WRONLY | O_CREAT | O_TRUNC, 0600);
+      if (efd >= 0) { dup2(efd, 2); close(efd); }
+    }
     try { case_body(); }
     catch (const std::exception& e) { hx::violation(std::string("harness.uncaught.") + typeid(e).name(), e.what()); }
     send_state(pfd[1]);
     close(pfd[1]);
     fflush(0);
     unlink(report_file().c_str());
+    { char eb[32]; snprintf(eb, sizeof eb, ".%d", (int) getpid()); unlink((g_base + ".err" + eb).c_str()); }
     _exit(0);
   }
   close(pfd[1]);
@@ -624,6 +655,7 @@ void run_case(uint64_t) {
   char b[32]; snprintf(b, sizeof b, ".%d", (int) pid);
   std::string rf = g_base + ".rep" + b;
   std::string rep = slurp_and_truncate(rf); unlink(rf.c_str());
+  { std::string ef = g_base + ".err" + b; std::string err = slurp_new(ef, 0); unlink(ef.c_str()); if (!err.empty()) { fputs(err.c_str(), stderr); rep = err + rep; } }
   std::string ctx, cls = crash_class(rep, ctx);
   std::ostringstream o;
   if (WIFSIGNALED(stt)) o << "child killed by signal " << WTERMSIG(stt); else o << "child exit status " << WEXITSTATUS(stt);
